@@ -55,6 +55,9 @@ def decorate(plan, rng):
     if rng.random() < 0.4:
         # inner attributes of the trait body are part of `ItemTrait::attrs` too (seeded change C08f)
         q.trait_inner = rng.choice(['#![allow(non_snake_case)] ', '#![doc = " inner doc"] ', '#![allow(dead_code)] #![doc = " two"] '])
+    if rng.random() < 0.25:
+        # the blocks name the invocation's trait through a qualified path: the helpers still live in the anonymous constant (D46)
+        q.header_qual = "self::"
     if rng.random() < 0.4:
         # methods whose argument patterns are not plain identifiers (the generated delegations rename such arguments; the user's trait must
         # keep them — and its default bodies keep using the names the patterns bind; seeded change C08g)
